@@ -143,7 +143,7 @@ Print Assumptions C10_image_compose.
 
 (* "the transformer updates an image field once" is FALSE: ImageTagTransformer runs the legacy filter
    and then the field-spec filter, so tagSuffix -s turns x:1 into x:1-s-s
-   (finding C10/image-tagsuffix-applied-twice) *)
+   (finding C10/image-tagsuffix-applied-twice; the proposed repair was declined) *)
 Theorem C10_image_transform_once_refuted :
   update_value twice_parse twice_entry "x:1" = Ok (Some "x:1-s") /\
   image_transform twice_parse twice_entry gen_images_fs [twice_doc] =
@@ -285,18 +285,23 @@ Theorem C10_replacement_verbatim : forall value t s old,
 Proof. exact set_field_value_verbatim. Qed.
 Print Assumptions C10_replacement_verbatim.
 
-(* "the source value is copied verbatim into every target" is FALSE: without source options the
-   replacement keeps the LIVE source node, and a target (with delimiter/index) that rewrites the
-   source field changes what later targets receive: source a = x, targets [a; b] (b = q), delimiter
-   "/", index 1: b becomes q/x/x, not q/x (finding C10/replacement-source-aliased-by-target) *)
-Theorem C10_replacement_verbatim_refuted :
+(* The source value is copied once (repair of C10/replacement-source-aliased-by-target): the
+   replacement value is never live ... *)
+Theorem C10_replacement_value_not_live : forall rs r vs,
+  get_replacement rs r = Ok vs -> vs_live vs = None.
+Proof. exact get_replacement_not_live. Qed.
+Print Assumptions C10_replacement_value_not_live.
+
+(* ... regression witness: source a = x, targets [a; b] (b = q), delimiter "/", index 1: b becomes q/x
+   although a was rewritten first (it used to become q/x/x) *)
+Theorem C10_replacement_verbatim_regression :
   splice (mkFO "/" 1%Z false) "q" "x" = "q/x" /\
   replacement_filter (parse_of []) node_value (fun _ => false) simple_lsel 2 [alias_repl] [alias_doc] =
   Ok [Map [("kind", Scalar TStr SPlain "ConfigMap");
            ("metadata", Map [("name", Scalar TStr SPlain "cm")]);
-           ("data", Map [("a", Scalar TStr SPlain "x/x"); ("b", Scalar TStr SPlain "q/x/x")])]].
-Proof. exact replacement_source_aliased_lemma. Qed.
-Print Assumptions C10_replacement_verbatim_refuted.
+           ("data", Map [("a", Scalar TStr SPlain "x/x"); ("b", Scalar TStr SPlain "q/x")])]].
+Proof. exact replacement_source_copied_regression. Qed.
+Print Assumptions C10_replacement_verbatim_regression.
 
 (* the address-returning lookup the replacement model uses for the source is the C14 PathGetter *)
 Theorem C10_replacement_lookup_addr : forall ps n,
@@ -330,30 +335,20 @@ Theorem C10_match_elem_partial :
 Proof. exact pm_last_selector_spec. Qed.
 Print Assumptions C10_match_elem_partial.
 
-(* PathMatcher with Create does not terminate when the selector value, read as a regular
-   expression, does not match itself: for EVERY fuel the model runs out of it
-   (finding C10/replacement-create-nonselfmatching-selector-hangs; witness spec.containers.[name=^zz$].image) *)
-Theorem C10_match_terminates_refuted :
-  forall fuel, pm zz_parse node_value (fun _ => false) (Some KScalar) fuel zz_path zz_doc = Diverge.
-Proof. exact match_diverges_lemma. Qed.
-Print Assumptions C10_match_terminates_refuted.
+(* PathMatcher ALWAYS returns — every path, every document, with or without Create, no hypothesis
+   on the selector values: the create-and-retry of doSeq is guarded (repair of
+   C10/replacement-create-nonselfmatching-selector-hangs), two units of fuel are enough. *)
+Theorem C10_match_total :
+  forall parse enc nonstr (create : option kind) fuel (path : list string) (n : node),
+    pm parse enc nonstr create (S (S fuel)) path n <> Diverge.
+Proof. exact pm_total. Qed.
+Print Assumptions C10_match_total.
 
-(* without Create the matcher always returns (one unit of fuel is enough) and never modifies the
-   document; with Create see C10_match_create_total (kept under its old name) *)
-Theorem C10_match_total_partial :
-  forall parse enc nonstr fuel (path : list string) (n : node),
-    pm parse enc nonstr None (S fuel) path n <> Diverge.
-Proof. exact pm_nocreate_total. Qed.
-Print Assumptions C10_match_total_partial.
-
-(* With Create, EVERY path shape and every document: PathMatcher returns (two units of fuel suffice)
-   provided every list selector value, compiled, matches the text of the scalar holding it. *)
-Theorem C10_match_create_total :
-  forall parse enc nonstr (k : kind) fuel (path : list string),
-    self_matching parse enc path ->
-    forall n, pm parse enc nonstr (Some k) (S (S fuel)) path n <> Diverge.
-Proof. exact pm_create_total_general. Qed.
-Print Assumptions C10_match_create_total.
+(* regression witness of the repaired hang: spec.containers.[name=^zz$].image with Create is an error *)
+Theorem C10_match_unmatched_create_is_error :
+  forall fuel, pm zz_parse node_value (fun _ => false) (Some KScalar) (S (S fuel)) zz_path zz_doc = Err.
+Proof. exact match_unmatched_create_is_error. Qed.
+Print Assumptions C10_match_unmatched_create_is_error.
 
 (* the invariant behind it: started on created material (no sequence, no null) or on a fresh empty
    sequence entered by an index / list selector, Create-mode matching never answers "nothing" *)
@@ -453,6 +448,19 @@ Theorem Gen_C10_match_patterns :
   gen_match_doseq_retries = true.
 Proof. exact gen_match_patterns_shape. Qed.
 Print Assumptions Gen_C10_match_patterns.
+
+(* the two landed repairs (/repo a578c9a, 7d89942), as the translator reads them out of the source *)
+Theorem Gen_C10_repairs :
+  gen_match_doseq_guarded = true /\
+  (gen_replacement_source_copied = true /\ gen_replacement_source_return_recognised = true).
+Proof. exact (conj gen_match_doseq_is_guarded gen_replacement_source_is_copied). Qed.
+Print Assumptions Gen_C10_repairs.
+
+(* ImageTagTransformer.Transform still runs its two filters independently (the repair was declined) *)
+Theorem Gen_C10_image_transform :
+  gen_image_transform_filters = 2 /\ gen_image_transform_shares_visited = false.
+Proof. exact gen_image_transform_independent. Qed.
+Print Assumptions Gen_C10_image_transform.
 
 Theorem Gen_C10_default_field_path : gen_default_replacement_field_path = "metadata.name".
 Proof. exact gen_default_field_path. Qed.
